@@ -15,7 +15,7 @@ What is decided here, and by what:
     modexp_c : modexp.c monty_pow / monty_multiply + mont.c on CONCRETE operands of word-boundary byte lengths
                (LLSYM as bounds-checking interpreter): every access in bounds, everything released, result ==
                Python's pow / product  (exactness for the operands run, not for all operands)
-  (bignum.c ge / sub / add_mod / sub_mod / mod_select with all limbs symbolic are decided under C06.)
+    bignum   : bignum.c ge / sub / add_mod / sub_mod / mod_select with all limbs symbolic (harness shared with C06)
 NOT decided: exactness of the multiplication-based C kernels (mont_mult_*, addmul128, square, product) and of the
 GMP back-end for all operands -- wide symbolic multiplication is not SMT-decidable here (measured) and GMP is
 a binary library; composites of the adversarial families being declared composite (a probabilistic statement
@@ -382,9 +382,15 @@ def run_modexp_refuse(env, sh):
     env.check(K.live_heap() == [], 'nothing leaks on the error path')
 
 
+def _c06():
+    from props import c06
+    return c06
+
+
 HARNESSES = dict(int_algo=Harness('int_algo', run_int_algo, max_paths=100000, budget_s=900), mr_prime=Harness('mr_prime', run_mr_prime, max_paths=100000, budget_s=900),
                  conv_c=Harness('conv_c', run_conv_c), modexp_c=Harness('modexp_c', run_modexp_c, budget_s=900),
                  modexp_refuse=Harness('modexp_refuse', run_modexp_refuse))
+HARNESSES['bignum'] = _c06().HARNESSES['bignum']
 
 
 def shapes(tier):
@@ -440,6 +446,8 @@ def shapes(tier):
     jobs.append(('modexp_c', dict(fn='pow', n=16, elen=16)))
     for n, last in ((1, 0), (1, 1), (1, 2), (8, 2), (9, 0), (16, 4)):
         jobs.append(('modexp_refuse', dict(n=n, last=last)))
+    # the linear multi-word kernels of bignum.c with all limbs symbolic (shared with C06)
+    jobs += [j for j in _c06().shapes(tier) if j[0] == 'bignum']
     return jobs
 
 
